@@ -827,6 +827,20 @@ func (env *SpecEnv) evalCall(n ECall) specVal {
 			return specVal{env.e.sym.Fresh("ghost!"+id, SBool), boolT}
 		}
 		sfail("unknown ghost %s", id)
+	case "recvfrom":
+		// recvfrom(ch): a select of this path completed through a receive case on channel ch
+		if env.callSite {
+			return specVal{env.e.sym.Fresh("recvfrom!callee", SBool), boolT}
+		}
+		ch := env.eval(n.Args[0]).v.(Term)
+		var alts []Term
+		for k, v := range env.st.ghost {
+			if strings.HasPrefix(k, "recvch!") {
+				alts = append(alts, And(v, Eq(Term{strings.TrimPrefix(k, "recvch!"), SInt}, ch)))
+			}
+		}
+		sort.Slice(alts, func(i, j int) bool { return alts[i].S < alts[j].S })
+		return specVal{Or(alts...), boolT}
 	case "sent":
 		// sent(): a select of this path completed through one of its send cases
 		if env.callSite {
